@@ -587,6 +587,15 @@ func (g *gen) exitStmt() {
 	switch {
 	case g.noExit > 0:
 		g.emit(`println("noexit", %s);`, c.s)
+	case g.inLoop > 0 && g.r.Chance(1, 4):
+		// the exit is the tail expression of a nested block (no `;` after the inner if)
+		c2 := g.boolExpr(1, true)
+		g.emit("if %s {", c.s)
+		g.ind++
+		g.emit(`println("exit-nested");`)
+		g.emit("if %s { %s; }", c2.s, pick2(g.r, "break", "continue"))
+		g.ind--
+		g.emit("};")
 	case g.inLoop > 0 && g.r.Chance(2, 3):
 		g.emit("if %s {", c.s)
 		g.ind++
@@ -842,7 +851,7 @@ func (s *GenSpec) Source() string {
 			g.emit("let %s = %s;", name, g.floatLit().e.s)
 			g.declare(&gv{name: name, t: "float", fbase: true, ro: true})
 		default:
-			g.emit("let %s = %s;", name, pick2(g.r, "true", "false"))
+			g.emit("let %s = %s;", name, fw.Pick(g.r, []string{"true", "false", "6 * 7 > 40", "3 * 4 <= 12", "2 * 5 >= 11", "9 < 2 * 4"}))
 			g.declare(&gv{name: name, t: "bool", ro: true})
 		}
 	}
